@@ -44,7 +44,9 @@ EXTENDS Naturals, FiniteSets, Sequences, TLC
 CONSTANTS Procs, Versions, Bits, MaxSteps,
           WithSv,   \* the SasView load route takes part
           SvMode,   \* "asWritten" | "ideal"
-          Variant   \* "ok" | "keyIgnoresInc" | "keyIgnoresBits" | "tmplNeverRefreshed" | "wrapperMemo" (failing controls) | "noDepends" (equivalent: included C is read fresh)
+          Stamps,   \* "now": an edit is stamped with the clock | "any": with any time later than every source time so far
+                    \* (a file restored with its times preserved, a share whose clock runs behind, or ahead)
+          Variant   \* "ok" | "keyIgnoresInc" | "keyIgnoresBits" | "tmplNeverRefreshed" | "wrapperMemo" | "stampNow" (failing controls) | "noDepends" (equivalent: included C is read fresh)
 
 Files == {"py", "inc", "tmpl"}
 
@@ -90,15 +92,20 @@ Init ==
     /\ just = NoJust
     /\ steps = 0
 
-Edit(f, v) ==
+EditAt(f, v, t) ==
     /\ steps < MaxSteps
     /\ v # text[f]
     /\ text' = [text EXCEPT ![f] = v]
-    /\ mtime' = [mtime EXCEPT ![f] = clock]
-    /\ clock' = clock + 1
+    /\ mtime' = [mtime EXCEPT ![f] = t]
+    /\ clock' = Max(clock, t) + 1
     /\ steps' = steps + 1
     /\ just' = NoJust
     /\ UNCHANGED <<dll, means, modc, tmplc, last, wrapc, svc>>
+Edit(f, v) == EditAt(f, v, clock)
+\* times an edit may carry when Stamps = "any": later than every source time so far (a file restored with a time
+\* older than a dependency's is outside the model), up to one tick ahead of the clock
+NewestSource == Max(mtime["py"], Max(mtime["inc"], mtime["tmpl"]))
+StampTimes == (NewestSource + 1)..(clock + 1)
 
 \* custom.need_reload: any dependency newer than the cached timestamp
 NeedReload(p) ==
@@ -106,7 +113,7 @@ NeedReload(p) ==
     \/ modc[p].ts < mtime["py"]
     \/ (Variant # "noDepends" /\ modc[p].ts < mtime["inc"])
 ModAfter(p) == IF NeedReload(p)
-               THEN [v |-> text["py"], ts |-> Max(mtime["py"], mtime["inc"])]
+               THEN [v |-> text["py"], ts |-> IF Variant = "stampNow" THEN clock ELSE Max(mtime["py"], mtime["inc"])]
                ELSE modc[p]
 \* generate.load_template
 TmplAfter(p) == IF tmplc[p] = NoTmpl \/ (Variant # "tmplNeverRefreshed" /\ mtime["tmpl"] > tmplc[p].mt)
@@ -135,7 +142,9 @@ Load(p, b) ==
                             ELSE wrapc
     /\ just' = [p |-> p, b |-> b]
     /\ steps' = steps + 1
-    /\ UNCHANGED <<text, mtime, clock, svc>>
+    \* (in the failing control stampNow the module is stamped with the time of the load, and time moves on afterwards)
+    /\ clock' = IF Variant = "stampNow" THEN clock + 1 ELSE clock
+    /\ UNCHANGED <<text, mtime, svc>>
 
 \* sasview_model.load_custom_model(path)() evaluated once (double precision)
 LoadSv(p) ==
@@ -173,6 +182,7 @@ NewProcess(p) ==
     /\ UNCHANGED <<text, mtime, clock, dll, means>>
 
 Next == \/ \E f \in Files, v \in Versions : Edit(f, v)
+        \/ (Stamps = "any" /\ \E f \in Files, v \in Versions, t \in StampTimes : EditAt(f, v, t))
         \/ \E p \in Procs, b \in Bits : Load(p, b)
         \/ \E p \in Procs : NewProcess(p)
         \/ \E p \in Procs : LoadSv(p)
